@@ -109,3 +109,32 @@ reg("C18", level="proof", engine="E-TAB", technique="abstract interpretation of 
                "reaches which field and that nothing but widening / same-width casts is applied.",
     level_note="Trusted: rustc MIR, interpreter/models; an int-to-u64 `as` cast preserves every non-negative value that fits.",
     trusted_base=TB_COMMON, assumptions=["inputs are non-negative and within MAX_SAFE_INTEGER (the property's domain)"])
+
+reg("C01", level="other", engine="E-TAB+E-GRAM+E-SET", design_ref="DESIGN.md §5 C01",
+    technique="decision-table extraction by abstract interpretation of the desugaring closures (MIR) compared cell by cell "
+              "with node-semver's documented desugaring; grammar tree extracted from MIR for operator/delimiter rules",
+    explanation="Partial claim. Decided: (1) the complete desugaring table — every comparator form (>=,>,<,<=,=,bare,~,~>,^,"
+                "hyphen) x every partial shape (each component absent/zero/positive, prerelease present/absent) — extracted "
+                "from the MIR of the grammar's closures and compared with node-semver's replaceXRange/replaceTilde/"
+                "replaceCaret/hyphenReplace as (lower cut, upper cut, gate tuples); (2) the operator literal table and "
+                "prefix shadowing; (3) delimiter discipline and alternative order of simple(), separators of range() and "
+                "logical_or(); (4) the AND-fold of one alternative. NOT decided: how arbitrary text is cut into tokens by "
+                "the PEG (whole-text equivalence with npm's regex pipeline).",
+    level_text="Other (partial): exhaustive over the finite desugaring table and the structural grammar rules; the tokeniser's "
+               "behaviour on arbitrary strings is not decided by this check.",
+    level_note="Trusted: rustc MIR, interpreter/models, the transcription of node-semver's desugaring functions "
+               "(engine/desugar.py), canonicalisations K1-K4 (DESIGN §5 C01). Interval emptiness/gate: C07/C03.",
+    exhaustive=True, assumptions=["C03 (gate)", "C07 (interval construction)", "whole-text tokenisation is out of scope"])
+
+reg("C02", level="other", engine="E-TAB+E-SET", design_ref="DESIGN.md §5 C02",
+    technique="abstract interpretation of the fold / flatten closures of range() and bound_sets() over interval tokens of a "
+              "free Boolean algebra (bounded list lengths); OR-loop of Range::satisfies; interval intersection table",
+    explanation="The closure that folds the comparators of one alternative is interpreted on comparator lists of length 0..3 "
+                "(with dropped tokens) in every world of the free Boolean algebra: its result must denote the intersection "
+                "of all comparators and hold at most one interval. bound_sets' closure must concatenate alternatives; "
+                "Range::satisfies must be the OR over alternatives; order independence follows from T-INT (commutative, "
+                "exact).",
+    level_text="Other: exhaustive for the stated list lengths (bounded unrolling of uniform loops); the prerelease clause "
+               "follows from C03 + C07 provenance, text-level concatenation from the grammar rules of C01.",
+    level_note="Trusted: rustc MIR, interpreter/models (Iterator::flatten/fold/try_fold/collect), level-1 tables (C07).",
+    exhaustive=True, assumptions=["C07", "C03", "list lengths <= 3 (quick) / 4 (thorough)"])
